@@ -120,6 +120,7 @@ type c20Case struct {
 	Project    *synth.Project `json:"project"`
 	JSON5      bool           `json:"json5"`
 	Decoys     []string       `json:"decoys,omitempty"`
+	Twins      []string       `json:"twins,omitempty"`
 }
 
 const brokenGo = "package ctl\n\nfunc broken( {\n"
@@ -203,7 +204,9 @@ func c20(c *orch.Ctx) (*report.Result, error) {
 		}
 		cs := &c20Case{Kind: "honour", Project: p, JSON5: r.Intn(3) == 0}
 		// files with the same base name in different directories are different files
+		twin := false
 		if r.Intn(2) == 0 {
+			twin = true
 			seenPkg := map[string]bool{}
 			for ci := range p.Controllers {
 				cc := &p.Controllers[ci]
@@ -248,6 +251,13 @@ func c20(c *orch.Ctx) (*report.Result, error) {
 				p.ExtraFiles["models/zz_decoy.go"] = decoyController("models", "DecoyInModels")
 				cs.Decoys = append(cs.Decoys, "DecoyInModels")
 			}
+		}
+		if twin && len(p.Controllers) > 0 && len(p.Controllers[0].Files) > 0 {
+			// a further controller in a directory of its own, in a file named like the first controller's file
+			p.ExtraFiles["twin/"+p.Controllers[0].Files[0]] = decoyController("twin", "TwinDirCtl")
+			p.Config.Globs = append(p.Config.Globs, "./twin/*.go")
+			cs.Twins = append(cs.Twins, "TwinDirCtl")
+			p.SetFeature("same-file-name-in-several-directories")
 		}
 		cases = append(cases, cs)
 	}
@@ -441,6 +451,22 @@ func c20(c *orch.Ctx) (*report.Result, error) {
 			}
 			if served && !strings.Contains(string(src), cc.Name) {
 				res.AddViolation("globbed-controller-missing-from-routes", map[string]string{"globs_matching_nothing": fmt.Sprint(p.HasFeature("globs-matching-nothing"))}, fmt.Sprintf("%s controller %s lives in a glob-matched file but the routes file never mentions it", label, cc.Name), csj)
+			}
+		}
+		// a glob-matched file contributes its controller whatever other matched files are called
+		for _, d := range cs.Twins {
+			low := strings.ToLower(d)
+			found := false
+			for _, op := range doc.Operations() {
+				if strings.Contains(op.Path, "decoy"+low) {
+					found = true
+				}
+			}
+			if !found {
+				res.AddViolation("globbed-controller-missing-from-spec", map[string]string{"twin": d}, fmt.Sprintf("%s controller %s lives in a glob-matched file (same base name as another matched file, other directory) but none of its routes is documented", label, d), csj)
+			}
+			if !strings.Contains(string(src), d) {
+				res.AddViolation("globbed-controller-missing-from-routes", map[string]string{"twin": d}, fmt.Sprintf("%s controller %s lives in a glob-matched file (same base name as another matched file, other directory) but the routes file never mentions it", label, d), csj)
 			}
 		}
 		// only glob-matched files contribute controllers
